@@ -525,7 +525,7 @@ DIRS = st.tuples(ANG, U(-1.0, 1.0)).map(list)   # azimuth, sin(elevation)
 @st.composite
 def placements(draw):
     kind = draw(st.sampled_from(["contact"] * 9 + ["inside"] * 3 + ["notch"] * 3 + ["free"] * 2
-                                + ["far"] * 1))
+                                + ["far"] * 2))
     pl = {"kind": kind, "u": draw(DIRS), "sel": draw(st.integers(0, 63))}
     if kind == "contact":
         mag = draw(st.one_of(SMALL_DELTA, SMALL_DELTA, LARGE_DELTA))
